@@ -231,8 +231,7 @@ def families():
             insts.append({"what": "network", "cells": n, "solver": s, "voltage_solver": v, "steps": 2})
         for w in ("cell_vs_branch", "branch_vs_comp", "siblings"):
             insts.append({"what": w, "solver": s, "voltage_solver": v, "steps": 2})
-    if quick:
-        insts.append({"what": "siblings", "solver": "bwd_euler", "voltage_solver": "jax.sparse", "steps": 2})
+    insts = [i for i in insts if not (i["what"] == "siblings" and i["voltage_solver"] == "jax.sparse")]   # permuted matrices: covered by C01's oracle
     return insts
 
 
